@@ -239,7 +239,7 @@ func cprojOutcome(env *zygo.Zlisp, o outcome) any {
 var codecClasses = []string{"plain", "dquote", "squote", "backslash", "nl", "cr", "tab", "bel", "bs", "ff", "vt",
 	"c0", "del", "bmp_np", "bmp_p", "astral_p", "astral_np", "invalid"}
 
-func classOf(cp int) string {
+func cdClassOf(cp int) string {
 	if cp < 0 {
 		return "invalid"
 	}
@@ -307,28 +307,28 @@ var classBoundary = map[string][]string{
 	"invalid":   {"\xff", "\x80", "\xc3", "\xe2\x82", "\xed\xa0\x80", "\xf4\x90\x80\x80", "\xc0\xaf"},
 }
 
-// randMember draws a seeded random member of a class.
-func randMember(r *rng, cls string) string {
+// cdRandMember draws a seeded random member of a class.
+func cdRandMember(r *rng, cls string) string {
 	bs := classBoundary[cls]
 	switch cls {
 	case "plain":
 		for {
 			c := rune(0x20 + r.intn(0x5f))
-			if classOf(int(c)) == "plain" {
+			if cdClassOf(int(c)) == "plain" {
 				return string(c)
 			}
 		}
 	case "c0":
 		for {
 			c := rune(r.intn(0x20))
-			if classOf(int(c)) == "c0" {
+			if cdClassOf(int(c)) == "c0" {
 				return string(c)
 			}
 		}
 	case "bmp_np", "bmp_p":
 		for i := 0; i < 2000; i++ {
 			c := rune(0x80 + r.intn(0x10000-0x80))
-			if classOf(int(c)) == cls {
+			if cdClassOf(int(c)) == cls {
 				return string(c)
 			}
 		}
@@ -340,7 +340,7 @@ func randMember(r *rng, cls string) string {
 			} else {
 				c = rune(0x10000 + r.intn(0x100000))
 			}
-			if classOf(int(c)) == cls {
+			if cdClassOf(int(c)) == cls {
 				return string(c)
 			}
 		}
@@ -360,7 +360,7 @@ func ccOf(texts ...string) []any {
 		for _, cp := range cpsOf(t) {
 			if !seen[cp] {
 				seen[cp] = true
-				out = append(out, []any{cp, classOf(cp)})
+				out = append(out, []any{cp, cdClassOf(cp)})
 			}
 		}
 	}
@@ -375,7 +375,7 @@ func ccOfProj(p any) []any {
 	add := func(cp int) {
 		if !seen[cp] {
 			seen[cp] = true
-			out = append(out, []any{cp, classOf(cp)})
+			out = append(out, []any{cp, cdClassOf(cp)})
 		}
 	}
 	var walk func(x any)
@@ -479,10 +479,10 @@ func lexLiteral(text string, quote byte) ([]any, bool) {
 
 // ---------------------------------------------------------------- JSON token tree
 
-// jsonTree parses bytes with encoding/json (well-formedness is delegated to
+// cdJSONTree parses bytes with encoding/json (well-formedness is delegated to
 // it) into ["jnull"] ["jbool",b] ["jnum",exact,f64] ["jstr",cps] ["jarr",[..]]
 // ["jobj",[[name cps,tree]..]] (members in document order), or ["jbad",why].
-func jsonTree(b []byte) any {
+func cdJSONTree(b []byte) any {
 	if !utf8.Valid(b) {
 		return []any{"jbad", "utf8"}
 	}
@@ -491,7 +491,7 @@ func jsonTree(b []byte) any {
 	}
 	dec := json.NewDecoder(bytes.NewReader(b))
 	dec.UseNumber()
-	t, err := jsonValue(dec)
+	t, err := cdJSONValue(dec)
 	if err != nil {
 		return []any{"jbad", "decode"}
 	}
@@ -501,7 +501,7 @@ func jsonTree(b []byte) any {
 	return t
 }
 
-func jsonValue(dec *json.Decoder) (any, error) {
+func cdJSONValue(dec *json.Decoder) (any, error) {
 	tok, err := dec.Token()
 	if err != nil {
 		return nil, err
@@ -521,7 +521,7 @@ func jsonValue(dec *json.Decoder) (any, error) {
 		case '[':
 			elems := []any{}
 			for dec.More() {
-				e, err := jsonValue(dec)
+				e, err := cdJSONValue(dec)
 				if err != nil {
 					return nil, err
 				}
@@ -542,7 +542,7 @@ func jsonValue(dec *json.Decoder) (any, error) {
 				if !ok {
 					return nil, fmt.Errorf("member name is not a string")
 				}
-				e, err := jsonValue(dec)
+				e, err := cdJSONValue(dec)
 				if err != nil {
 					return nil, err
 				}
@@ -740,7 +740,7 @@ func (g *gval) json() string {
 
 // ---------------------------------------------------------------- scalar palettes
 
-type member struct {
+type cdMember struct {
 	g   *gval
 	cls string // scalar class (for coverage counting)
 }
@@ -748,9 +748,9 @@ type member struct {
 var gridInts = []int64{0, 1, -1, 7, 255, 65536, 1<<31 - 1, 1 << 31, -(1 << 31) - 1, 1 << 53, 1<<53 + 1, -(1<<53 + 1),
 	1 << 62, math.MaxInt64, math.MinInt64, math.MaxInt64 - 1024, 1000000000000000000, 123456789012345678, -42}
 
-func gridFloats(jsonOnly bool) []member {
-	ms := []member{}
-	add := func(cls string, g *gval) { ms = append(ms, member{g, cls}) }
+func gridFloats(jsonOnly bool) []cdMember {
+	ms := []cdMember{}
+	add := func(cls string, g *gval) { ms = append(ms, cdMember{g, cls}) }
 	for _, f := range []float64{1.0, -1.0, 0.0, math.Copysign(0, -1), 100.0, 123456789.0, 1e15, 9007199254740992.0, 9007199254740994.0} {
 		add("flt-integral", gFlt(f, false))
 	}
@@ -785,46 +785,46 @@ func gridFloats(jsonOnly bool) []member {
 
 // stringMembers: every boundary member of every class alone, every ordered
 // pair of classes, and seeded random class sequences of length <= 3.
-func stringMembers(r *rng, nTriples int, withInvalid bool) []member {
-	ms := []member{{gStr(""), "str-empty"}}
+func stringMembers(r *rng, nTriples int, withInvalid bool) []cdMember {
+	ms := []cdMember{{gStr(""), "str-empty"}}
 	classes := codecClasses
 	if !withInvalid {
 		classes = classes[:len(classes)-1]
 	}
 	for _, c := range classes {
 		for _, m := range classBoundary[c] {
-			ms = append(ms, member{gStr(m), "str-" + c})
+			ms = append(ms, cdMember{gStr(m), "str-" + c})
 		}
 		for i := 0; i < 3; i++ {
-			ms = append(ms, member{gStr(randMember(r, c)), "str-" + c})
+			ms = append(ms, cdMember{gStr(cdRandMember(r, c)), "str-" + c})
 		}
 	}
 	for _, a := range classes {
 		for _, b := range classes {
-			ms = append(ms, member{gStr(randMember(r, a) + randMember(r, b)), "str-" + a + "+" + b})
+			ms = append(ms, cdMember{gStr(cdRandMember(r, a) + cdRandMember(r, b)), "str-" + a + "+" + b})
 		}
 	}
 	for i := 0; i < nTriples; i++ {
 		a, b, c := pick(r, classes), pick(r, classes), pick(r, classes)
-		ms = append(ms, member{gStr(randMember(r, a) + randMember(r, b) + randMember(r, c)), "str-" + a + "+" + b + "+" + c})
+		ms = append(ms, cdMember{gStr(cdRandMember(r, a) + cdRandMember(r, b) + cdRandMember(r, c)), "str-" + a + "+" + b + "+" + c})
 	}
-	ms = append(ms, member{gStr("hello world"), "str-plain"}, member{gStr("Atype"), "str-plain"}, member{gStr("null"), "str-plain"},
-		member{gStr("a\"b\\c\nd"), "str-mixed"}, member{gStr("</script>"), "str-plain"}, member{gStr("\u00e9\u4e2d\U0001f600"), "str-mixed"})
+	ms = append(ms, cdMember{gStr("hello world"), "str-plain"}, cdMember{gStr("Atype"), "str-plain"}, cdMember{gStr("null"), "str-plain"},
+		cdMember{gStr("a\"b\\c\nd"), "str-mixed"}, cdMember{gStr("</script>"), "str-plain"}, cdMember{gStr("\u00e9\u4e2d\U0001f600"), "str-mixed"})
 	return ms
 }
 
 // ---------------------------------------------------------------- contexts
 
 // A context places a value x at a position of a nested value (depth <= 3).
-type gctx struct {
+type cdCtx struct {
 	name string
 	mk   func(x *gval) *gval
 }
 
-func codecContexts(withRec bool) []gctx {
+func codecContexts(withRec bool) []cdCtx {
 	one := gInt(1)
 	s := gStr("s")
-	cs := []gctx{
+	cs := []cdCtx{
 		{"top", func(x *gval) *gval { return x }},
 		{"[x]", func(x *gval) *gval { return gArr(x) }},
 		{"[1 x s]", func(x *gval) *gval { return gArr(one, x, s) }},
@@ -845,13 +845,13 @@ func codecContexts(withRec bool) []gctx {
 	}
 	if withRec {
 		cs = append(cs,
-			gctx{"(rec f:x)", func(x *gval) *gval { return gHash("rec", symKeys("f"), x) }},
-			gctx{"(rec z:1 f:x)", func(x *gval) *gval { return gHash("rec", symKeys("z", "f"), one, x) }},
-			gctx{"{a:(rec f:x)}", func(x *gval) *gval { return gHash("hash", symKeys("a"), gHash("rec", symKeys("f"), x)) }},
-			gctx{"(rec r:(Other y:x b:1))", func(x *gval) *gval {
+			cdCtx{"(rec f:x)", func(x *gval) *gval { return gHash("rec", symKeys("f"), x) }},
+			cdCtx{"(rec z:1 f:x)", func(x *gval) *gval { return gHash("rec", symKeys("z", "f"), one, x) }},
+			cdCtx{"{a:(rec f:x)}", func(x *gval) *gval { return gHash("hash", symKeys("a"), gHash("rec", symKeys("f"), x)) }},
+			cdCtx{"(rec r:(Other y:x b:1))", func(x *gval) *gval {
 				return gHash("rec", symKeys("r"), gHash("Other", symKeys("y", "b"), x, one))
 			}},
-			gctx{"[(rec f:{q:x})]", func(x *gval) *gval {
+			cdCtx{"[(rec f:{q:x})]", func(x *gval) *gval {
 				return gArr(gHash("rec", symKeys("f"), gHash("hash", symKeys("q"), x)))
 			}},
 		)
@@ -859,9 +859,9 @@ func codecContexts(withRec bool) []gctx {
 	return cs
 }
 
-// enumTrees lists every value of depth <= 2 with <= 2 children per container
+// cdEnumTrees lists every value of depth <= 2 with <= 2 children per container
 // over the given leaves, container kinds and key sets.
-func enumTrees(leaves []*gval, kinds []string, depth int) []*gval {
+func cdEnumTrees(leaves []*gval, kinds []string, depth int) []*gval {
 	level := append([]*gval(nil), leaves...)
 	all := append([]*gval(nil), leaves...)
 	for d := 1; d <= depth; d++ {
@@ -888,7 +888,7 @@ func enumTrees(leaves []*gval, kinds []string, depth int) []*gval {
 				next = append(next, mk(k, x))
 				for _, y := range all {
 					next = append(next, mk(k, x, y))
-					if !containsPtr(level, y) {
+					if !cdContainsPtr(level, y) {
 						next = append(next, mk(k, y, x))
 					}
 				}
@@ -900,7 +900,7 @@ func enumTrees(leaves []*gval, kinds []string, depth int) []*gval {
 	return all
 }
 
-func containsPtr(xs []*gval, y *gval) bool {
+func cdContainsPtr(xs []*gval, y *gval) bool {
 	for _, x := range xs {
 		if x == y {
 			return true
@@ -909,8 +909,8 @@ func containsPtr(xs []*gval, y *gval) bool {
 	return false
 }
 
-// randTree draws a nested value of depth <= maxDepth.
-func randTree(r *rng, leaves []member, kinds []string, keyNames []string, strKeys bool, maxDepth int) *gval {
+// cdRandTree draws a nested value of depth <= maxDepth.
+func cdRandTree(r *rng, leaves []cdMember, kinds []string, keyNames []string, strKeys bool, maxDepth int) *gval {
 	if maxDepth == 0 || r.intn(10) < 3 {
 		return pick(r, leaves).g
 	}
@@ -918,7 +918,7 @@ func randTree(r *rng, leaves []member, kinds []string, keyNames []string, strKey
 	n := r.intn(4)
 	es := []*gval{}
 	for i := 0; i < n; i++ {
-		es = append(es, randTree(r, leaves, kinds, keyNames, strKeys, maxDepth-1))
+		es = append(es, cdRandTree(r, leaves, kinds, keyNames, strKeys, maxDepth-1))
 	}
 	switch kind {
 	case "arr":
@@ -947,7 +947,7 @@ type codecDriver struct {
 func newCodecDriver() *codecDriver {
 	for cls, ms := range classBoundary {
 		for _, m := range ms {
-			if got := classOf(cpsOf(m)[0]); got != cls {
+			if got := cdClassOf(cpsOf(m)[0]); got != cls {
 				fatal("class table: %q listed as %s but classified %s", m, cls, got)
 			}
 		}
@@ -981,7 +981,7 @@ func (d *codecDriver) rtCase(id string, g *gval, cls string) map[string]any {
 	c["skeys"] = g.hasStrKey()
 	o := evalSafe(d.env, "(json v)\n")
 	if raw, ok := o.Val.(*zygo.SexpRaw); o.Kind == "val" && ok {
-		c["json"] = jsonTree(raw.Val)
+		c["json"] = cdJSONTree(raw.Val)
 		c["jtext"] = trunc(strconv.QuoteToASCII(string(raw.Val)), 400)
 	} else {
 		c["json"] = []any{"jbad", "nojson"}
@@ -1008,7 +1008,7 @@ func (d *codecDriver) clsCase(id string, cls string, m string) map[string]any {
 	if raw, ok := o.Val.(*zygo.SexpRaw); o.Kind == "val" && ok {
 		toks, lexed := lexLiteral(string(raw.Val), '"')
 		c["emit"], c["lexed"] = toks, lexed
-		c["json"] = jsonTree(raw.Val)
+		c["json"] = cdJSONTree(raw.Val)
 		c["jtext"] = trunc(strconv.QuoteToASCII(string(raw.Val)), 200)
 	} else {
 		c["json"] = []any{"jbad", "nojson"}
@@ -1017,13 +1017,13 @@ func (d *codecDriver) clsCase(id string, cls string, m string) map[string]any {
 	return c
 }
 
-func codecScalars(r *rng, thorough bool) []member {
-	ms := []member{{gNil(), "nil"}, {gBool(true), "bool"}, {gBool(false), "bool"}}
+func codecScalars(r *rng, thorough bool) []cdMember {
+	ms := []cdMember{{gNil(), "nil"}, {gBool(true), "bool"}, {gBool(false), "bool"}}
 	for _, i := range gridInts {
-		ms = append(ms, member{gInt(i), "int"})
+		ms = append(ms, cdMember{gInt(i), "int"})
 	}
 	for _, u := range []uint64{0, 12, 1 << 63, math.MaxUint64} {
-		ms = append(ms, member{gUint(u), "uint"})
+		ms = append(ms, cdMember{gUint(u), "uint"})
 	}
 	ms = append(ms, gridFloats(true)...)
 	nt := 150
@@ -1064,7 +1064,7 @@ func init() {
 		for _, cls := range codecClasses {
 			ms := append([]string(nil), classBoundary[cls]...)
 			for i := 0; i < nrand; i++ {
-				ms = append(ms, randMember(r0, cls))
+				ms = append(ms, cdRandMember(r0, cls))
 			}
 			for _, m := range ms {
 				if mine(idx) {
@@ -1087,7 +1087,7 @@ func init() {
 		}
 		// (b) every value of depth <= 2 with <= 2 children over a palette of scalar classes
 		palette := []*gval{gNil(), gBool(true), gInt(7), gFlt(2.5, false), gFlt(1.0, false), gStr("x")}
-		trees := enumTrees(palette, []string{"arr", "hash", "rec"}, 2)
+		trees := cdEnumTrees(palette, []string{"arr", "hash", "rec"}, 2)
 		for i, t := range trees {
 			if !c.thorough() && t.depth() == 2 && len(t.E) == 2 && !hashSel(c.seed, i, 1, 16) {
 				continue
@@ -1117,7 +1117,7 @@ func init() {
 		for i := 0; i < n; i++ {
 			r := newRng(c.seed, uint64(1000+i))
 			strKeys := i%10 == 9
-			t := randTree(r, scalars, []string{"arr", "hash", "rec", "Other"}, keyNames, strKeys, 3)
+			t := cdRandTree(r, scalars, []string{"arr", "hash", "rec", "Other"}, keyNames, strKeys, 3)
 			emit("r", t, "random")
 		}
 		return 0
